@@ -62,6 +62,9 @@ def batch_package():
         ("flagRec", N("BtFlagsRecord")),
         ("unionFlags", U((("f", N("BtFlags")), ("s", P("string")), ("r", N("BtFlagInner"))), False, True)),
         ("genFlags", N("BtGen", (N("BtFlags"),))),
+        # plain numbers, the items a numpy user hands over as an array: fixed-width ones (which a writer may copy from memory) and varint-encoded ones
+        ("numF32", P("float32")), ("numF64", P("float64")), ("numU8", P("uint8")), ("numI8", P("int8")), ("numI16", P("int16")), ("numU64", P("uint64")),
+        ("numCF", P("complexfloat32")), ("numCD", P("complexfloat64")), ("numSize", P("size")),    # (no stream of bool: std::vector<bool>, a listed finding of C08)
     ]
     protos = [Proto("Bt" + n[:1].upper() + n[1:], [("pre", P("uint8")), ("s", S(t)), ("post", P("string"))]) for n, t in items]
     # the first value after a stream is null (an item of the next stream, an optional step)
@@ -246,7 +249,9 @@ def run(ctx):
                         ctx.ev()
                         ctx.count("py.ndjson-in." + mode)
                         rt.judge(ctx, m, proto, vals, text, res, ep.name, "bin", "%s python mode %s reading %s NDJSON, %d items" % (proto.name, mode, src, n), {"mode": mode, "ndjson_from": src})
-            for mode in (("copy_to", "list", "gen", "reuse", "itemwise", "pairs") if n <= 4 else ("list", "gen", "reuse")):
+            for mode in (("copy_to", "list", "gen", "reuse", "itemwise", "pairs", "nparray", "nparray-split") if n <= 4 else ("list", "gen", "reuse", "nparray")):
+                if mode.startswith("nparray") and not proto.name.startswith("BtNum") and proto.name not in ("BtBigLongs", "BtNullFirst"):
+                    continue
                 ep = rt.PyEndpoint(m, mode=mode)
                 res = ep.copy(proto.name, "bin", "bin", data)
                 ctx.ev()
